@@ -149,6 +149,7 @@ template <template <class...> class GT, class L> void binary(Reporter &R, uint64
         GT<L> again = loadBin<GT, L>(path); // the same bytes load identically
         unlink(path.c_str());
         ++C.roundTrips;
+        R.digest(bytes);
         if (!(loaded == again)) {
             R.violation(cls + "/loadBinaryEdgeList/not-deterministic", "loading the same file twice gives unequal graphs; graph " + s.str());
             return;
